@@ -43,14 +43,14 @@ type plant struct {
 
 // longTpl is the compact description of one template.
 type longTpl struct {
-	N      int     `json:"n"`               // length of the background
-	Seed   uint64  `json:"seed"`            // seed of the background
-	Alpha  string  `json:"alpha"`           // alphabet of the background
-	Plants []plant `json:"plants"`          // written over the background, in this order
-	RC     bool    `json:"rc,omitempty"`    // then reverse-complemented
-	Rot    int     `json:"rot,omitempty"`   // then rotated (moves the junction of a circular template)
-	Lit    string  `json:"lit,omitempty"`   // a short literal template instead of all the above
-	Note   string  `json:"note,omitempty"`  // how the generator made it (not used by the check)
+	N      int     `json:"n"`              // length of the background
+	Seed   uint64  `json:"seed"`           // seed of the background
+	Alpha  string  `json:"alpha"`          // alphabet of the background
+	Plants []plant `json:"plants"`         // written over the background, in this order
+	RC     bool    `json:"rc,omitempty"`   // then reverse-complemented
+	Rot    int     `json:"rot,omitempty"`  // then rotated (moves the junction of a circular template)
+	Lit    string  `json:"lit,omitempty"`  // a short literal template instead of all the above
+	Note   string  `json:"note,omitempty"` // how the generator made it (not used by the check)
 }
 
 func splitmix(x *uint64) uint64 {
@@ -259,7 +259,10 @@ func genLongTemplate(t *rapid.T, g genCtx) longTpl {
 		return rapid.SampledFrom([]int{-3, -1, 0, 0, 1, 2, rapid.IntRange(1, 80).Draw(t, label+"_rnd"), rapid.IntRange(1, 400).Draw(t, label+"_rnd2")}).Draw(t, label)
 	}
 	edge := func(label string) int {
-		c := []int{0, 0, 1, 2, rapid.IntRange(0, 600).Draw(t, label+"_rnd")}
+		c := []int{0, 0, 1, 2, rapid.IntRange(0, 600).Draw(t, label+"_rnd"), rapid.IntRange(0, 600).Draw(t, label+"_rnd2")}
+		if rapid.IntRange(0, 5).Draw(t, label+"_far") == 0 {
+			c = []int{rapid.IntRange(600, 20000).Draw(t, label+"_big")} // sites far inside a long template
+		}
 		if par.Ext >= 0 {
 			c = append(c, par.Ext, par.Ext+1, max(par.Ext-1, 0), par.Ext)
 		}
